@@ -163,11 +163,13 @@ Definition new_rdf_entry (Hd : hasher) (key : path) (v : xval) : res rdf_entry :
      entryHasher := hasher; if hasher == nil { hasher = defaultHasher }
      rs := newRelationship(ds, hasher)      -> every key is Path{hasher: hasher}
      e := RDFEntry{hasher: entryHasher}; value converted under hasher.Prime() *)
+Definition wrap_entry (h : hasher) (ho : option hasher) (e : entry) : rdf_entry :=
+  mkentry (mkpath (e_key e) (Some h)) (e_val e) (e_dt e) ho.
 Definition entries_from_rdf_h (Hd : hasher) (F : floats) (ho : option hasher) (ds : dataset)
   : res (list rdf_entry) :=
   let h := hasher_or Hd ho in
   es <- entries_from_rdf F (h_prime h) ds ;;
-  Ok (map (fun e => mkentry (mkpath (e_key e) (Some h)) (e_val e) (e_dt e) ho) es).
+  Ok (map (wrap_entry h ho) es).
 
 (* ---------- AddEntriesToMerkleTree ---------- *)
 Fixpoint merklize_entries (T : tparams) (Hd : hasher) (t : tree) (es : list rdf_entry)
